@@ -276,11 +276,14 @@ Proof.
 Qed.
 End Done.
 
+Lemma wf_grammar_terms : wf_grammar g = true -> 0 <= g_terms g.
+Proof. unfold wf_grammar. intros H. apply andb_true_iff in H. destruct H as [H _]. apply Z.leb_le. exact H. Qed.
+
 Lemma wf_grammar_range : wf_grammar g = true ->
   (forall r, In r (g_rules g) -> g_terms g <= r_lhs r < g_terms g + g_nonterms g) /\
   (forall r s, In r (g_rules g) -> In s (r_rhs r) -> 0 <= s < nsyms g).
 Proof.
-  unfold wf_grammar. rewrite forallb_forall. intros H. split.
+  unfold wf_grammar. intros H. apply andb_true_iff in H. destruct H as [_ H]. rewrite forallb_forall in H. split.
   - intros r Hr. specialize (H r Hr). apply andb_true_iff in H. destruct H as [H _].
     apply andb_true_iff in H. destruct H as [H1 H2]. apply Z.leb_le in H1. apply Z.ltb_lt in H2. lia.
   - intros r s Hr Hs. specialize (H r Hr). apply andb_true_iff in H. destruct H as [_ H].
